@@ -502,8 +502,7 @@ func containsString(path []string, rid string) bool {
 	return false
 }
 
-func (s *Subscription) unsubscribeRefs() {
-	sent := s.IsSent()
+func (s *Subscription) unsubscribeRefs(sent bool) {
 	for _, ref := range s.refs {
 		s.c.Unsubscribe(ref.sub, false, sent, 1, false)
 	}
@@ -813,7 +812,9 @@ func (s *Subscription) Dispose() {
 	s.throttle = nil
 
 	if s.resourceSub != nil {
-		s.unsubscribeRefs()
+		// The references were counted as sent if the subscription was sent
+		// before it got disposed.
+		s.unsubscribeRefs(state == stateSent || state == stateDeleted)
 		if state != stateDeleted {
 			s.resourceSub.Unsubscribe(s)
 		}
